@@ -30,7 +30,7 @@ ASSUMPTIONS = [
     "half-unit accuracy is claimed (and checked) only under |x|*10^D < 2^51; outside it the double rounding of round()+format() can exceed half a unit, text equality with the exact model is still required",
 ]
 TRUSTED = ["CPython round()/format()/float()/int()/strftime/strptime are correctly rounded / as documented; the model computes the same results exactly and is compared with them on every case"]
-NOT_THEOREMS = ['stability clause (rewritten == written) for float fields: render(parse(render x)) = render x is a hypothesis (RenderLaw, third clause) of Props.C01.line_stable, validated here by exact text equality with the model on every case; the read-back clause IS a theorem for every layout without date fields in Spec.C01.inDomain (Props.C01.readBack_of_inDomain)',
+NOT_THEOREMS = ['stability clause (rewritten == written) for float fields in E notation and for F-notation floats whose decimals are reduced to fit (proved when the declared decimals fit: Props.C01.law_flt_F): render(parse(render x)) = render x is a hypothesis (RenderLaw, third clause) of Props.C01.line_stable, validated here by exact text equality with the model on every case; the read-back clause IS a theorem for every layout without date fields in Spec.C01.inDomain (Props.C01.readBack_of_inDomain)',
                 
                 'Spec.C01.floatClauses (dialect, half-unit accuracy under |x|*10^D<2^51, maximal decimals): evaluated per case']
 EXHAUSTIVE = {"quick": False, "thorough": False}
